@@ -48,6 +48,38 @@ enum Inj {
     /// message sequence number (0..=8 covers "already seen", "the next expected" and "future" for
     /// both roles), an empty or a plausible body; record sequence number high enough to be fresh
     Handshake { msg_type: u8, message_seq: u16, body: u8, epoch: u16, stranger: bool },
+    /// the genuine handshake datagram that is about to be delivered to the victim with one more
+    /// record APPENDED in the same datagram (delivered ahead of the unmodified original, which then
+    /// is a harmless duplicate): `tail` < 100: a cleartext handshake message of type
+    /// TAIL_TYPES[tail / 9] with message_seq tail % 9 and a plausible body; 100 = cleartext
+    /// close_notify, 101 = cleartext fatal alert, 102 = cleartext application data. Interesting where
+    /// the genuine record is the one that makes the victim derive its keys.
+    AppendPending { tail: u8, label: String },
+}
+
+const TAIL_TYPES: [u8; 5] = [20, 0, 11, 3, 1];
+
+fn tail_name(tail: u8) -> String {
+    match tail {
+        100 => "close_notify".into(),
+        101 => "fatal-alert".into(),
+        102 => "application-data".into(),
+        t => format!("{}/message_seq={}", hs_type_name(TAIL_TYPES[(t / 9) as usize % 5]), t % 9),
+    }
+}
+
+fn tail_record(tail: u8) -> Vec<u8> {
+    match tail {
+        100 => wire::encode_record(21, 0, 0x3000, &[1, 0]),
+        101 => wire::encode_record(21, 0, 0x3000, &[2, 40]),
+        102 => wire::encode_record(23, 0, 0x3000, b"INJECTED-BEHIND-A-GENUINE-RECORD"),
+        t => {
+            let msg_type = TAIL_TYPES[(t / 9) as usize % 5];
+            let b = hs_body(msg_type, 1);
+            let h = wire::Hs { msg_type, length: b.len() as u32, message_seq: (t % 9) as u16, frag_off: 0, frag_len: b.len() as u32, body: b };
+            wire::encode_record(22, 0, 0x3000 + t as u64, &wire::encode_hs(&h))
+        }
+    }
 }
 
 const HS_TYPES: [u8; 10] = [0, 1, 2, 3, 11, 12, 14, 16, 20, 4];
@@ -115,6 +147,7 @@ impl Inj {
             Inj::Reepoch { epoch } => format!("genuine-reepoch({epoch})"),
             Inj::Reflect => "own-record-reflected".into(),
             Inj::FlipPending { bit, label } => format!("bitflip-of-pending[{label}](byte-class={})", pending_region(*bit / 8)),
+            Inj::AppendPending { tail, label } => format!("cleartext-record-appended-to[{label}]({})", tail_name(*tail)),
             Inj::Handshake { msg_type, message_seq, body, epoch, stranger } => format!("cleartext-handshake(type={},message_seq={message_seq},body={},epoch={epoch},from={})", hs_type_name(*msg_type), if *body == 0 { "empty" } else { "plausible" }, if *stranger { "stranger" } else { "peer-addr" }),
         }
     }
@@ -251,6 +284,15 @@ fn build_injection(inj: &Inj, genuine: Option<&Dgram>, own: Option<&Dgram>, pend
             let h = wire::Hs { msg_type: *msg_type, length: b.len() as u32, message_seq: *message_seq, frag_off: 0, frag_len: b.len() as u32, body: b };
             Some(Dgram { data: wire::encode_record(22, *epoch, 0x2000 + *message_seq as u64, &wire::encode_hs(&h)), from: if *stranger { sim::addr(sim::ADDR_X) } else { peer }, to })
         }
+        Inj::AppendPending { tail, .. } => {
+            let g = pending?;
+            if g.dest_side() != Some(victim) {
+                return None;
+            }
+            let mut d = g.data.clone();
+            d.extend(tail_record(*tail));
+            Some(Dgram { data: d, from: peer, to })
+        }
         Inj::FlipPending { bit, .. } => {
             let g = pending?;
             if g.dest_side() != Some(victim) || *bit / 8 >= g.data.len() {
@@ -335,6 +377,15 @@ fn run(sc: Option<&Scenario>, seed: u64) -> Option<Obs> {
                             Some(Side::B) => cke_delivered,
                             None => false,
                         };
+                        // an appended record is judged where the genuine record in front of it is the one
+                        // that gives the victim its keys (ClientKeyExchange at the server, ServerHelloDone at
+                        // the client), or later
+                        let appended = matches!(&sc, Some(s) if s.inj.iter().any(|i| matches!(i, Inj::AppendPending { .. })));
+                        let gives_keys = next.as_ref().is_some_and(|d| {
+                            let want = if sc.as_ref().map(|s| s.victim) == Some(Side::B) { 16 } else { 14 };
+                            wire::dtls_records(&d.data).iter().any(|r| r.ctype == 22 && r.epoch == 0 && wire::handshake_msgs(&r.body).iter().any(|h| h.msg_type == want))
+                        });
+                        let has_keys = has_keys || (appended && gives_keys);
                         if matches!(st, Stage::Boundary(_)) && !has_keys {
                             if matches!(&sc, Some(s) if s.stage == st) {
                                 obs.skipped_no_keys = true;
@@ -518,8 +569,11 @@ fn judge(sc: &Scenario, o: &Obs, base: &Obs) -> Vec<(String, String)> {
     }
     // (2c) ... and directly: the victim's state right after the injection (quiescent, the genuine
     // datagram still withheld) is its state right before it
+    // (not for a record appended to a genuine datagram: the genuine record in front of it is meant to
+    // act; there the final states, the state history and the deliveries are compared with the baseline)
+    let appended = sc.inj.iter().any(|i| matches!(i, Inj::AppendPending { .. }));
     if let Some((before, after)) = &o.inj_states {
-        if before != after {
+        if before != after && !appended {
             out.push((format!("state_changed_by_injection;stage={:?};victim={};inj={cls};from={before};to={after}", sc.stage, sc.victim.name()), format!("victim {} went {before} -> {after} on the injected record alone", sc.victim.name())));
         }
     }
@@ -966,6 +1020,26 @@ fn main() {
             pending_flips += 1;
         }
     }
+    // a cleartext record appended, in the same datagram, to every handshake datagram that gives its
+    // receiver keys or reaches a receiver that holds them
+    let mut appended_hist = 0u64;
+    for (k, (dest, _len, label, keys)) in base_open.hs_dgrams.iter().enumerate() {
+        if *dest > 1 {
+            continue;
+        }
+        let gives = (*dest == 1 && label.contains("ClientKeyExchange")) || (*dest == 0 && label.contains("ServerHelloDone"));
+        if !keys[*dest as usize] && !gives {
+            continue;
+        }
+        let victim = if *dest == 0 { Side::A } else { Side::B };
+        for tail in (0..45u8).chain(100..=102) {
+            scenarios.push(Scenario { stage: Stage::Boundary(k as u8), victim, inj: vec![Inj::AppendPending { tail, label: label.clone() }] });
+            appended_hist += 1;
+        }
+    }
+    if appended_hist < 2 * 48 {
+        vh::machinery_failure(&format!("only {appended_hist} appended-record histories: the key-giving handshake datagrams were not recognised by their labels"));
+    }
     // every single-bit flip of A's genuine close_notify datagram, delivered to B ahead of the original
     for bit in 0..base_close.close_dgram_len * 8 {
         scenarios.push(Scenario { stage: Stage::ClosePending, victim: Side::B, inj: vec![Inj::FlipPending { bit, label: "A:close_notify(enc)".into() }] });
@@ -1113,6 +1187,7 @@ fn main() {
     rep.set("single_injection_histories", singles as u64);
     rep.set("histories_with_an_effect", n_effect);
     rep.set("pending_handshake_datagram_bitflip_histories", pending_flips);
+    rep.set("record_appended_to_pending_handshake_datagram_histories", appended_hist);
     rep.set("handshake_datagram_boundaries", base_open.handshake_datagrams as u64);
     rep.set("boundary_x_victim_points_with_keys_held", boundary_applied.len() as u64);
     rep.set("boundary_histories_skipped_victim_without_keys", n_skipped);
@@ -1141,6 +1216,7 @@ fn scenario_to_json(sc: &Scenario) -> serde_json::Value {
         Inj::Reepoch { epoch } => json!({"k": "reepoch", "epoch": epoch}),
         Inj::Reflect => json!({"k": "reflect"}),
         Inj::FlipPending { bit, label } => json!({"k": "flip-pending", "bit": bit, "label": label}),
+        Inj::AppendPending { tail, label } => json!({"k": "append-pending", "tail": tail, "label": label}),
         Inj::Handshake { msg_type, message_seq, body, epoch, stranger } => json!({"k": "handshake", "msg_type": msg_type, "message_seq": message_seq, "body": body, "epoch": epoch, "stranger": stranger}),
     }).collect::<Vec<_>>()})
 }
@@ -1160,6 +1236,7 @@ fn scenario_from_json(r: &serde_json::Value) -> Scenario {
         "reepoch" => Inj::Reepoch { epoch: i["epoch"].as_u64().unwrap() as u16 },
         "reflect" => Inj::Reflect,
         "handshake" => Inj::Handshake { msg_type: i["msg_type"].as_u64().unwrap() as u8, message_seq: i["message_seq"].as_u64().unwrap() as u16, body: i["body"].as_u64().unwrap() as u8, epoch: i["epoch"].as_u64().unwrap() as u16, stranger: i["stranger"].as_bool().unwrap() },
+        "append-pending" => Inj::AppendPending { tail: i["tail"].as_u64().unwrap() as u8, label: i["label"].as_str().unwrap_or("").to_string() },
         "flip-pending" => Inj::FlipPending { bit: i["bit"].as_u64().unwrap() as usize, label: i["label"].as_str().unwrap_or("").to_string() },
         _ => Inj::Readdress,
     }).collect();
